@@ -1,4 +1,198 @@
 import LWV.Model.Mgmt
 import LWV.Spec.Mgmt
+/-
+C08 — security classification follows the RSN and WPA elements exactly.
+-/
 namespace LWV.Props.C08
+open LWV LWV.Model
+
+/-- the enumeration the Spec's selector tables prescribe, in the translator's tabulation order:
+(position, OUI class, selector, flags) -/
+def rsnExpected : List (Nat × Nat × Nat × Nat) :=
+  Spec.rsnGroupBit.map (fun e => (0, 0, e.1, Spec.bit e.2)) ++
+  Spec.rsnPairwiseBit.map (fun e => (1, 0, e.1, Spec.bit e.2)) ++
+  Spec.akmBit.map (fun e => (2, 0, e.1, Spec.bit e.2 ||| Spec.bit (Spec.rsnGeneration e.1)))
+
+def wpaExpected : List (Nat × Nat × Nat × Nat) :=
+  Spec.wpaMulticastBit.map (fun e => (0, 1, e.1, Spec.bit e.2)) ++
+  Spec.wpaUnicastBit.map (fun e => (1, 1, e.1, Spec.bit e.2)) ++
+  Spec.wpaAkmSel.map (fun s => (2, 1, s, Spec.lookupBit Spec.akmBit s ||| Spec.bit 2))
+
+/-- **C08 (tables)** the exhaustive tabulation of the compiled enumeration routines (every selector
+0..255 x {IEEE, Microsoft, foreign OUI} x {group, pairwise, AKM}) is exactly the documented
+assignment: suites count only under the element's own OUI, undefined selectors contribute
+nothing, each AKM carries its documented generation -/
+theorem C08_tables :
+    Gen.rsnEnum = rsnExpected ∧ Gen.wpaEnum = wpaExpected ∧
+    Gen.s_CIPHER_SUITE_OUI = Spec.ieeeOui ∧ Gen.s_MICROSOFT_OUI = Spec.msOui ∧
+    Gen.m_MICROSOFT_OUI_TYPE_WPA = 1 ∧ Gen.m_MICROSOFT_OUI_TYPE_WPS = 4 ∧ Gen.m_LIBWIFI_MAX_CIPHER_SUITES = 6 ∧
+    Gen.m_WEP = 2 ∧ Gen.m_WPA = 4 ∧ Gen.m_WPA2 = 8 ∧ Gen.m_WPA3 = 16 := by decide +kernel
+
+/-- the summary bits the tables use are pairwise distinct (generation bits 1..4, group 5..17,
+pairwise 18..31, AKM 32..53), so no two suites or generations share a flag -/
+theorem C08_flags_distinct :
+    (([1, 2, 3, 4] : List Nat) ++ Spec.rsnGroupBit.map Prod.snd ++ [18, 19, 20, 21, 22, 23, 24, 25, 26, 27, 28, 29, 30, 31] ++ Spec.akmBit.map Prod.snd).Nodup ∧
+    (∀ e ∈ Spec.rsnPairwiseBit ++ Spec.wpaUnicastBit, 18 ≤ e.2 ∧ e.2 ≤ 31) ∧
+    (∀ e ∈ Spec.wpaMulticastBit, e ∈ Spec.rsnGroupBit) := by decide
+
+/-! ### the element walkers -/
+
+theorem rd_getD (w : String) (bs : Bytes) (i : Nat) (h : i < bs.length) : rd w bs i = .ok (bs.getD i 0) := by
+  rw [rd_ok h]; simp [List.getD, List.getElem?_eq_getElem h]
+
+theorem le16El_ok (el : Bytes) (off : Nat) (h : off + 1 < el.length) : le16El el off = .ok (Spec.u16le el off) := by
+  unfold le16El
+  rw [rd_getD _ _ _ (by omega), rd_getD _ _ _ h]
+  rfl
+
+def toSel (s : Suite) : Spec.SuiteSel := ⟨s.oui, s.ty⟩
+
+theorem suiteAt_ok (el : Bytes) (off : Nat) (h : off + 4 ≤ el.length) :
+    ∃ s, suiteAt el off = .ok s ∧ toSel s = Spec.suiteAtS el off := by
+  unfold suiteAt
+  simp only [rdSlice, h, if_true, Outcome.bind_ok]
+  refine ⟨_, rfl, ?_⟩
+  simp only [toSel, Spec.suiteAtS]
+  congr 1
+  · rw [List.take_take]; simp
+  · congr 1
+    simp only [List.getD_eq_getElem?_getD, List.getElem?_take, List.getElem?_drop]
+    simp
+
+theorem suitesAt_ok (el : Bytes) (off n : Nat) (h : off + 4 * n ≤ el.length) :
+    ∃ l, suitesAt el off n = .ok l ∧ l.map toSel = Spec.suitesS el off n := by
+  induction n generalizing off with
+  | zero => exact ⟨[], rfl, rfl⟩
+  | succ n ih =>
+    obtain ⟨s, hs, hsel⟩ := suiteAt_ok el off (by omega)
+    obtain ⟨l, hl, hmap⟩ := ih (off + 4) (by omega)
+    refine ⟨s :: l, by simp [suitesAt, hs, hl], ?_⟩
+    simp only [List.map_cons, hsel, hmap, Spec.suitesS, List.range_succ_eq_map, List.map_cons, List.map_map, Nat.mul_zero, Nat.add_zero]
+    congr 1
+    apply List.map_congr_left
+    intro k _
+    simp only [Function.comp]
+    congr 1
+    omega
+
+/-- one suite list: refused exactly when the element cannot hold the declared suites -/
+theorem suiteList_spec (el : Bytes) (data : Nat) (hd : data ≤ el.length) :
+    (el.length < data + 2 + 4 * Spec.u16le el data → suiteList el data = .err (-EINVAL)) ∧
+    (data + 2 + 4 * Spec.u16le el data ≤ el.length →
+      ∃ l, suiteList el data = .ok (l, data + 2 + 4 * Spec.u16le el data) ∧
+        l.map toSel = Spec.suitesS el (data + 2) (min (Spec.u16le el data) 6)) := by
+  have h6 : maxSuites = 6 := by decide
+  unfold suiteList
+  by_cases h2 : el.length - data < 2
+  · refine ⟨fun _ => by simp [h2], fun h => by omega⟩
+  · simp only [h2, if_false]
+    rw [le16El_ok el data (by omega)]
+    simp only [Outcome.bind_ok]
+    by_cases h4 : el.length - (data + 2) < Spec.u16le el data * 4
+    · refine ⟨fun _ => by simp [h4], fun h => by omega⟩
+    · simp only [h4, if_false]
+      refine ⟨fun h => by omega, fun h => ?_⟩
+      obtain ⟨l, hl, hmap⟩ := suitesAt_ok el (data + 2) (min (Spec.u16le el data) maxSuites) (by rw [h6]; omega)
+      refine ⟨l, ?_, by rw [hmap, h6]⟩
+      rw [hl]
+      simp only [Outcome.bind_ok]
+      congr 2
+      omega
+
+/-- **C08 (RSN decode)** for EVERY element body: the decoded version, group suite, stored pairwise
+and AKM suites (at most six each) and capabilities are the element's bytes at their offsets; an
+element too short for its own counts (or without capabilities) makes the walk fail -/
+theorem C08_rsn_decode (el : Bytes) :
+    match Spec.rsnDecode el with
+    | none => getRsnInfo el = .err (-EINVAL)
+    | some d => ∃ i, getRsnInfo el = .ok i ∧ i.version = d.version ∧ toSel i.group = d.group ∧
+        i.pairwise.map toSel = d.pairwise ∧ i.akms.map toSel = d.akms ∧ i.caps = d.caps := by
+  unfold Spec.rsnDecode getRsnInfo
+  by_cases h8 : el.length < 8
+  · simp only [h8, if_true]
+    by_cases h6 : el.length < 6
+    · simp [h6]
+    · simp only [h6, if_false]
+      rw [le16El_ok el 0 (by omega)]
+      obtain ⟨g, hg, _⟩ := suiteAt_ok el 2 (by omega)
+      simp only [Outcome.bind_ok, hg]
+      have := (suiteList_spec el 6 (by omega)).1 (by omega)
+      simp [this]
+  · have h6 : ¬ el.length < 6 := by omega
+    simp only [h8, h6, if_false]
+    rw [le16El_ok el 0 (by omega)]
+    obtain ⟨g, hg, hgs⟩ := suiteAt_ok el 2 (by omega)
+    simp only [Outcome.bind_ok, hg]
+    by_cases hp : el.length < 8 + 4 * Spec.u16le el 6 + 2
+    · simp only [hp, if_true]
+      by_cases hp1 : el.length < 6 + 2 + 4 * Spec.u16le el 6
+      · simp [(suiteList_spec el 6 (by omega)).1 hp1]
+      · obtain ⟨pw, hpw, _⟩ := (suiteList_spec el 6 (by omega)).2 (by omega)
+        simp only [hpw, Outcome.bind_ok]
+        have := (suiteList_spec el (6 + 2 + 4 * Spec.u16le el 6) (by omega)).1 (by omega)
+        simp [this]
+    · simp only [hp, if_false]
+      obtain ⟨pw, hpw, hpwm⟩ := (suiteList_spec el 6 (by omega)).2 (by omega)
+      simp only [hpw, Outcome.bind_ok]
+      have hao : 6 + 2 + 4 * Spec.u16le el 6 = 8 + 4 * Spec.u16le el 6 := by omega
+      rw [hao]
+      by_cases ha : el.length < 8 + 4 * Spec.u16le el 6 + 2 + 4 * Spec.u16le el (8 + 4 * Spec.u16le el 6) + 2
+      · simp only [ha, if_true]
+        by_cases ha1 : el.length < 8 + 4 * Spec.u16le el 6 + 2 + 4 * Spec.u16le el (8 + 4 * Spec.u16le el 6)
+        · simp [(suiteList_spec el (8 + 4 * Spec.u16le el 6) (by omega)).1 ha1]
+        · obtain ⟨ak, hak, _⟩ := (suiteList_spec el (8 + 4 * Spec.u16le el 6) (by omega)).2 (by omega)
+          simp only [hak, Outcome.bind_ok]
+          have : el.length - (8 + 4 * Spec.u16le el 6 + 2 + 4 * Spec.u16le el (8 + 4 * Spec.u16le el 6)) < 2 := by omega
+          simp [this]
+      · simp only [ha, if_false]
+        obtain ⟨ak, hak, hakm⟩ := (suiteList_spec el (8 + 4 * Spec.u16le el 6) (by omega)).2 (by omega)
+        simp only [hak, Outcome.bind_ok]
+        have : ¬ (el.length - (8 + 4 * Spec.u16le el 6 + 2 + 4 * Spec.u16le el (8 + 4 * Spec.u16le el 6)) < 2) := by omega
+        simp only [this, if_false]
+        rw [le16El_ok el _ (by omega)]
+        exact ⟨_, rfl, rfl, hgs, hpwm, hakm, rfl⟩
+
+/-- **C08 (WPA decode)** the same for the WPA element (no capabilities field) -/
+theorem C08_wpa_decode (el : Bytes) :
+    match Spec.wpaDecode el with
+    | none => getWpaInfo el = .err (-EINVAL)
+    | some d => ∃ i, getWpaInfo el = .ok i ∧ i.version = d.version ∧ toSel i.multicast = d.multicast ∧
+        i.unicast.map toSel = d.unicast ∧ i.akms.map toSel = d.akms := by
+  unfold Spec.wpaDecode getWpaInfo
+  by_cases h8 : el.length < 8
+  · simp only [h8, if_true]
+    by_cases h6 : el.length < 6
+    · simp [h6]
+    · simp only [h6, if_false]
+      rw [le16El_ok el 0 (by omega)]
+      obtain ⟨g, hg, _⟩ := suiteAt_ok el 2 (by omega)
+      simp only [Outcome.bind_ok, hg]
+      have := (suiteList_spec el 6 (by omega)).1 (by omega)
+      simp [this]
+  · have h6 : ¬ el.length < 6 := by omega
+    simp only [h8, h6, if_false]
+    rw [le16El_ok el 0 (by omega)]
+    obtain ⟨g, hg, hgs⟩ := suiteAt_ok el 2 (by omega)
+    simp only [Outcome.bind_ok, hg]
+    by_cases hp : el.length < 8 + 4 * Spec.u16le el 6 + 2
+    · simp only [hp, if_true]
+      by_cases hp1 : el.length < 6 + 2 + 4 * Spec.u16le el 6
+      · simp [(suiteList_spec el 6 (by omega)).1 hp1]
+      · obtain ⟨pw, hpw, _⟩ := (suiteList_spec el 6 (by omega)).2 (by omega)
+        simp only [hpw, Outcome.bind_ok]
+        have := (suiteList_spec el (6 + 2 + 4 * Spec.u16le el 6) (by omega)).1 (by omega)
+        simp [this]
+    · simp only [hp, if_false]
+      obtain ⟨pw, hpw, hpwm⟩ := (suiteList_spec el 6 (by omega)).2 (by omega)
+      simp only [hpw, Outcome.bind_ok]
+      have hao : 6 + 2 + 4 * Spec.u16le el 6 = 8 + 4 * Spec.u16le el 6 := by omega
+      rw [hao]
+      by_cases ha : el.length < 8 + 4 * Spec.u16le el 6 + 2 + 4 * Spec.u16le el (8 + 4 * Spec.u16le el 6)
+      · simp only [ha, if_true]
+        simp [(suiteList_spec el (8 + 4 * Spec.u16le el 6) (by omega)).1 ha]
+      · simp only [ha, if_false]
+        obtain ⟨ak, hak, hakm⟩ := (suiteList_spec el (8 + 4 * Spec.u16le el 6) (by omega)).2 (by omega)
+        simp only [hak, Outcome.bind_ok]
+        exact ⟨_, rfl, rfl, hgs, hpwm, hakm⟩
+
 end LWV.Props.C08
